@@ -153,6 +153,10 @@ def rel_vectors(k, include_none):
     return out
 
 
+# DUID offsets: every scenario is built again on Signals created after k dummy Signals (all k of the menu).  The names
+# must not depend on where in the global DUID sequence the design happens to be built (second build in one process,
+# unrelated objects created first): "two runs over the same design produce the same text".
+DUID_OFFSETS = (0, 1, 2, 3, 5, 8, 13)
 CONF_EVERY = 32     # every CONF_EVERY-th scenario is re-run on fresh builds (conformance of the copy shortcut)
 
 # ------------------------------------------------------------------------------------------------------------------
@@ -230,13 +234,18 @@ class Namer:
         V = importlib.import_module("litex.gen.fhdl.verilog")
         # the set convert() passes (code under test, NOT the oracle)
         self.reserved_on = V._ieee_1800_2017_verilog_reserved_keywords
-        self.pool = [Signal() for _ in range(4)]
+        # one run of consecutively created real Signals: arr[k:k+4] are "the four signals created after k dummy Signals"
+        self.arr = [Signal() for _ in range(4 + max(DUID_OFFSETS))]
+        self.pool = self.arr[:4]
+        self.duid_stride = sorted({b.duid - a.duid for a, b in zip(self.arr, self.arr[1:])})
+        self.full_offsets = False      # True: never skip an offset (small families)
         assert all(a.duid < b.duid for a, b in zip(self.pool, self.pool[1:]))
         self.perms = {k: list(itertools.permutations(range(k))) for k in range(1, 5)}
         self.status = {}       # name -> 0 ok / 1 illegal / 2 keyword
         # measured
         self.n_scen = self.n_eval = self.n_nontrivial = self.n_conf = 0
-        self.cover = dict(suffix_runs=0, keyword_escaped_runs=0, hier_prefix_runs=0, exceptions=0, collisions=0)
+        self.cover = dict(suffix_runs=0, keyword_escaped_runs=0, hier_prefix_runs=0, exceptions=0, collisions=0,
+                          duid_offset_rebuilds=0, duid_offsets_same_set_order_skipped=0, duid_offset_set_orders=0)
         self.outcomes = set()
         self.viol = {}         # rule -> [count, key, detail]
         self.exc_samples = []
@@ -245,7 +254,11 @@ class Namer:
     def setup(self, bts, ovs, rel, reverse):
         k = len(bts)
         # reverse creation order: spec i sits on the signal with the i-th LARGEST duid (flat families only)
-        sigs = self.pool[:k][::-1] if reverse else self.pool[:k]
+        return self.setup_at(0, bts, ovs, rel, reverse)
+
+    def setup_at(self, off, bts, ovs, rel, reverse):
+        k = len(bts)
+        sigs = self.arr[off:off + k][::-1] if reverse else self.arr[off:off + k]
         for i, s in enumerate(sigs):
             s.backtrace = list(bts[i])
             s.name_override = ovs[i]
@@ -319,7 +332,7 @@ class Namer:
     def build(self, sigs, res):
         return self.namer.build_signal_namespace(set(sigs), self.reserved_on if res else set())
 
-    def describe(self, bts, ovs, rel, reverse, perm=None, res=None, names=None):
+    def describe(self, bts, ovs, rel, reverse, perm=None, res=None, names=None, off=None, names_off=None):
         d = dict(signals=[dict(backtrace=[list(e) for e in bts[i]], name_override=ovs[i], related=(rel[i] if rel[i] >= 0 else None))
                           for i in range(len(bts))], creation="reversed (spec i on the i-th youngest signal)" if reverse else "in order")
         d["reverse"] = bool(reverse)
@@ -327,6 +340,9 @@ class Namer:
             d["order"] = list(perm)
             d["reserved"] = bool(res)
             d["names"] = names
+        if off is not None:
+            d["duid_offset_dummy_signals"] = off
+            d["names_at_offset"] = names_off
         return d
 
     # -- one scenario ---------------------------------------------------------------------------------------------
@@ -412,7 +428,53 @@ class Namer:
             self.n_nontrivial += 1
         if ordinal % CONF_EVERY == 0:
             self.conform(sigs, results)
+        self.duid_offsets(bts, ovs, rel, reverse, sigs, results)       # (re-configures overlapping Signals: keep last)
         return results
+
+    def duid_offsets(self, bts, ovs, rel, reverse, sigs, results):
+        """Oracle (4) at the namer level: the same scenario built on Signals whose DUIDs are shifted (k dummy Signals
+        created first, every k of DUID_OFFSETS) gives every signal (by creation index) the same name.  Judged with the
+        reserved set on and get_name called in creation order.  An offset under which the signal set iterates in an
+        order that was already evaluated for this scenario (and the DUID order is the same by construction) is not
+        rebuilt, except in the small families (full_offsets)."""
+        k = len(bts)
+        ident = self.perms[k][0]
+        base = results.get((True, ident))
+        if base is None:
+            return
+        pos = {s: i for i, s in enumerate(sigs)}
+        seen = {tuple([pos[s] for s in set(sigs)])}
+        cover = self.cover
+        for off in DUID_OFFSETS[1:]:
+            so = self.setup_at(off, bts, ovs, rel, reverse)
+            pos = {s: i for i, s in enumerate(so)}
+            it = tuple([pos[s] for s in set(so)])
+            if it in seen:
+                if not self.full_offsets:
+                    cover["duid_offsets_same_set_order_skipped"] += 1
+                    continue
+            else:
+                seen.add(it)
+            self.n_eval += 1
+            cover["duid_offset_rebuilds"] += 1
+            try:
+                ns = self.build(so, True)
+                get = ns.get_name
+                names = [get(x) for x in so]
+            except Exception as e:
+                cover["exceptions"] += 1
+                self.record("namer.repro.duid_offset_exception", f"works at DUID offset 0 but raises after {off} dummy Signals: {e!r}",
+                            (k, sum(o is not None for o in ovs), sum(len(b) for b in bts), bts, tuple(o or "" for o in ovs), rel, reverse),
+                            (bts, ovs, rel, reverse, ident, True, base, off, None))
+                continue
+            if names != base:
+                i = next(j for j in range(k) if names[j] != base[j])
+                self.record("namer.repro.duid_offset",
+                            f"signal {i} (by creation index) is called {base[i]!r} when the scenario is built first, but {names[i]!r} when "
+                            f"{off} dummy Signal(s) are created before it: names {base} vs {names}",
+                            (k, sum(o is not None for o in ovs), sum(len(b) for b in bts), bts, tuple(o or "" for o in ovs), rel, reverse),
+                            (bts, ovs, rel, reverse, ident, True, base, off, names))
+        cover["duid_offset_set_orders"] += len(seen)
 
     def conform(self, sigs, results):
         """The copy shortcut against fresh builds: same names for every (reserved, order)."""
